@@ -8,7 +8,8 @@ package lalr
 //   * the lookahead set of every reduction equals the LALR(1) set obtained by merging canonical LR(1) states
 //     (reference construction below) - this covers Digraph/Traverse/Union, which are not proved deductively.
 // Space: a fixed list of grammars (including non-SLR ones) plus pseudo-random grammars with <= 3 nonterminals,
-// <= 3 terminals, <= 5 rules, right-hand sides of length <= 3 (GOVC_HARNESS_N of them, default 400).
+// <= 3 terminals, <= 5 rules (two thirds) or <= 5 nonterminals, <= 6 terminals, <= 9 rules (one third), right-hand sides of
+// length <= 3 (GOVC_HARNESS_N of them, default 400).
 
 import (
 	"fmt"
@@ -330,6 +331,131 @@ func hCheck(l *LALR1) string {
 			}
 		}
 	}
+	return hTableCheck(l, ref)
+}
+
+// hTableCheck (C02, C01 at table level, BOUNDED): for a grammar without LALR(1) conflicts the dense table must hold
+// exactly the LALR(1) actions, and the table-driven parse must accept every sentence of length <= 4 that a bounded
+// leftmost derivation search produces.
+func hTableCheck(l *LALR1, ref map[[2]int]map[int]bool) string {
+	g := l.G
+	rules := g.ProductoinRules
+	ns := len(g.LR0.LR0Closure)
+	// expected actions per cell
+	type act struct{ kind, arg int } // 1 shift/goto, 2 reduce
+	want := map[[2]int][]act{}
+	for si, st := range g.LR0.LR0Closure {
+		for _, gt := range st.GoTo {
+			want[[2]int{si, int(gt.Sym.ID)}] = append(want[[2]int{si, int(gt.Sym.ID)}], act{1, gt.ItemCl})
+		}
+	}
+	for k, las := range ref {
+		for la := range las {
+			want[[2]int{k[0], la}] = append(want[[2]int{k[0], la}], act{2, k[1]})
+		}
+	}
+	for _, as := range want {
+		if len(as) > 1 {
+			return "" // conflict: C02 says nothing
+		}
+	}
+	tab, err := l.GenTable()
+	if err != nil {
+		return "GenTable failed: " + err.Error()
+	}
+	for si := 0; si < ns; si++ {
+		for a := 0; a < len(g.Symbols); a++ {
+			exp := ns + 100
+			if as := want[[2]int{si, a}]; len(as) == 1 {
+				switch {
+				case as[0].kind == 1:
+					exp = as[0].arg
+				case as[0].arg == 0:
+					exp = ns + 200
+				default:
+					exp = -as[0].arg
+				}
+			}
+			if tab[si][a] != exp {
+				return fmt.Sprintf("conflict-free grammar: table[%d][%s] = %d, the LALR(1) action is %d", si, g.Symbols[a].Name, tab[si][a], exp)
+			}
+		}
+	}
+	// sentences by bounded leftmost derivation
+	type form []int
+	sentences := map[string][]int{}
+	queue := []form{{int(rules[0].RighPart[0].ID)}}
+	seen := map[string]bool{}
+	for steps := 0; len(queue) > 0 && steps < 4000; steps++ {
+		f := queue[0]
+		queue = queue[1:]
+		pos := -1
+		for i, s := range f {
+			if g.Symbols[s].IsNonTerminator {
+				pos = i
+				break
+			}
+		}
+		if pos < 0 {
+			if len(f) <= 4 {
+				sentences[fmt.Sprint(f)] = f
+			}
+			continue
+		}
+		for _, r := range rules[1:] {
+			if int(r.LeftPart.ID) != f[pos] {
+				continue
+			}
+			n := append(form{}, f[:pos]...)
+			for _, s := range r.RighPart {
+				n = append(n, int(s.ID))
+			}
+			n = append(n, f[pos+1:]...)
+			nt := 0
+			for _, s := range n {
+				if !g.Symbols[s].IsNonTerminator {
+					nt++
+				}
+			}
+			if len(n) <= 7 && nt <= 4 && !seen[fmt.Sprint(n)] {
+				seen[fmt.Sprint(n)] = true
+				queue = append(queue, n)
+			}
+		}
+	}
+	for _, w := range sentences {
+		toks := append(append([]int{}, w...), 1)
+		stack := []int{0}
+		pos := 0
+		ok := false
+		for steps := 0; steps < 10000; steps++ {
+			a := tab[stack[len(stack)-1]][toks[pos]]
+			if a == ns+100 {
+				break
+			} else if a == ns+200 {
+				ok = pos == len(toks)-1
+				break
+			} else if a > 0 {
+				stack = append(stack, a)
+				pos++
+			} else {
+				r := rules[-a]
+				stack = stack[:len(stack)-len(r.RighPart)]
+				gt := tab[stack[len(stack)-1]][r.LeftPart.ID]
+				if gt <= 0 || gt >= ns {
+					break
+				}
+				stack = append(stack, gt)
+			}
+		}
+		if !ok {
+			var names []string
+			for _, t := range w {
+				names = append(names, g.Symbols[t].Name)
+			}
+			return fmt.Sprintf("conflict-free grammar: the sentence [%s] is rejected by the table-driven parse", strings.Join(names, " "))
+		}
+	}
 	return ""
 }
 
@@ -375,11 +501,16 @@ func TestGovcHarness(t *testing.T) {
 		seed = v
 	}
 	rnd := rand.New(rand.NewSource(seed))
-	nts := []string{"S", "A", "B"}
-	ts := []string{"a", "b", "c"}
+	nts := []string{"S", "A", "B", "C", "D"}
+	ts := []string{"a", "b", "c", "d", "e", "f"}
 	for i := 0; i < N; i++ {
-		nn := 1 + rnd.Intn(3)
-		nr := nn + rnd.Intn(6-nn)
+		// two thirds small grammars (<= 3 nonterminals, <= 3 terminals, <= 5 rules), one third larger ones
+		maxN, maxT, maxR := 3, 3, 6
+		if i%3 == 2 {
+			maxN, maxT, maxR = 5, 6, 10
+		}
+		nn := 1 + rnd.Intn(maxN)
+		nr := nn + rnd.Intn(maxR-nn)
 		var rules []hRule
 		for k := 0; k < nr; k++ {
 			lhs := nts[k%nn]
@@ -391,7 +522,7 @@ func TestGovcHarness(t *testing.T) {
 				if rnd.Intn(2) == 0 {
 					rhs = append(rhs, nts[rnd.Intn(nn)])
 				} else {
-					rhs = append(rhs, ts[rnd.Intn(3)])
+					rhs = append(rhs, ts[rnd.Intn(maxT)])
 				}
 			}
 			rules = append(rules, hRule{lhs, rhs})
